@@ -45,7 +45,7 @@ Node* N = nullptr;
 int64_t T0 = 0;
 int MODE = 1;
 
-CTransactionRef G, Gb, Gs, Gx, P;     // P only in mode 2
+CTransactionRef G, Gb, Gs, Gx, P, Pb, Ps, Px;     // P and its malleated copies only in mode 2
 enum { PA = 0, PH = 1, PT = 2, PF = 9 };
 const char* peer_name(int p) { return p == PA ? "A" : p == PH ? "H" : p == PT ? "T" : "F"; }
 
@@ -86,7 +86,7 @@ std::string describe(const std::string& hist)
 // the same history without those copies (the property speaks about what a copy *causes*).
 std::vector<std::pair<std::string, std::string>> g_fails;
 void fail(const std::string& key, const std::string& what, const std::string&) { g_fails.emplace_back(key, what); }
-bool IsCopyOp(const Op& o) { return (o.t == DEL && o.x >= 1 && o.x <= 3) || (o.t == ANN && o.x == 2); }
+bool IsCopyOp(const Op& o) { return (o.t == DEL && ((o.x >= 1 && o.x <= 3) || o.x >= 5)) || (o.t == ANN && o.x == 2); }
 uint64_t g_baseline_fail;
 std::string g_baseline_sample;
 
@@ -283,8 +283,8 @@ std::string Probe(Wiring& w, const std::string& hist)
             for (int p : {PA, PH, PT, PF}) if (w.connected.count(p)) any |= w.OrphanWork(p);
             if (!any) break;
         }
-        if (!InPool(G) && !w.dm.m_orphanage->HaveTx(G->GetWitnessHash()) && !r) {
-            // G was neither validated nor kept: deliver once more now that the parent is there
+        if (!InPool(G) && !w.dm.m_orphanage->HaveTx(G->GetWitnessHash())) {
+            // G was not kept as an orphan: the peer sends it once more now that the parent is there
             (void)w.Tx(PF, G);
         }
     }
@@ -308,7 +308,7 @@ bool replay_raw(const std::string& hist, std::string& key)
         if (o.t != CLK && o.t != BLOCK && o.t != REORG && !w.connected.count(o.peer)) { if (last) return false; continue; }
         switch (o.t) {
         case DEL: {
-            CTransactionRef tx = o.x == 0 ? G : o.x == 1 ? Gb : o.x == 2 ? Gs : o.x == 3 ? Gx : P;
+            CTransactionRef tx = o.x == 0 ? G : o.x == 1 ? Gb : o.x == 2 ? Gs : o.x == 3 ? Gx : o.x == 4 ? P : o.x == 5 ? Pb : o.x == 6 ? Ps : Px;
             if (InPool(G)) { if (last) return false; break; } // G already accepted: nothing left to attack
             (void)w.Tx(o.peer, tx);
             break;
@@ -377,46 +377,51 @@ void BuildUniverse(int mode)
     OPS.clear();
     static std::vector<COutPoint> base_coin;
     static std::vector<CAmount> base_val;
-    static COutPoint drop_coin;
-    static CAmount drop_val;
+    static COutPoint drop_coin[2];
+    static CAmount drop_val[2];
     if (base_coin.empty()) {
-        // base chain: block 1 pays to P2WSH(OP_DROP OP_TRUE), the others to P2WSH(OP_TRUE)
+        // base chain: blocks 1 and 2 pay to P2WSH(OP_DROP OP_TRUE), the others to P2WSH(OP_TRUE)
         const int nblocks = 120;
         T0 = Params().GenesisBlock().nTime + 600 * (int64_t)(nblocks + 1);
         SetMockTime(T0);
         for (int i = 0; i < nblocks; i++) {
             BlockOpts o;
-            if (i == 0) o.coinbase_spk = DropTrueSpk();
+            if (i < 2) o.coinbase_spk = DropTrueSpk();
             CBlock b = MakeBlock(*N, N->tip(), {}, o);
             auto r = N->ProcessBlock(b);
             if (N->tip()->GetBlockHash() != b.GetHash()) { printf("HARNESS-ERROR property=C64 base block rejected: %s\n", r.reason.c_str()); exit(2); }
-            if (i == 0) { drop_coin = COutPoint(b.vtx[0]->GetHash(), 0); drop_val = b.vtx[0]->vout[0].nValue; }
+            if (i < 2) { drop_coin[i] = COutPoint(b.vtx[0]->GetHash(), 0); drop_val[i] = b.vtx[0]->vout[0].nValue; }
             else { base_coin.push_back(COutPoint(b.vtx[0]->GetHash(), 0)); base_val.push_back(b.vtx[0]->vout[0].nValue); }
         }
     }
     const CAmount fee = 20000;
     COutPoint spend;
     CAmount v;
-    if (mode == 1) {
-        P = nullptr;
-        spend = drop_coin;
-        v = drop_val;
-    } else {
-        CMutableTransaction p = MakeTx({{base_coin[0]}}, {{base_val[0] - fee, DropTrueSpk()}});
-        P = MakeTransactionRef(p);
-        spend = COutPoint(P->GetHash(), 0);
-        v = base_val[0] - fee;
-    }
-    CTransactionRef base = MakeTransactionRef(MakeTx({{spend, 0xffffffff, false}}, {{v - fee, OpTrueSpk()}}));
     const CScript ws = DropTrue();
     const std::vector<unsigned char> wsb(ws.begin(), ws.end());
     const CScript wrong = OpTrueScript();
+    const std::vector<unsigned char> wrongb(wrong.begin(), wrong.end());
+    if (mode == 1) {
+        P = Pb = Ps = Px = nullptr;
+        spend = drop_coin[0];
+        v = drop_val[0];
+    } else {
+        // the parent spends the second OP_DROP OP_TRUE coin, so it has the same three malleated forms
+        CTransactionRef pbase = MakeTransactionRef(MakeTx({{drop_coin[1], 0xffffffff, false}}, {{drop_val[1] - fee, DropTrueSpk()}}));
+        P = WithWitness(pbase, {{1}, wsb});
+        Pb = WithWitness(pbase, {{1}, wrongb});
+        Ps = pbase;
+        Px = WithWitness(pbase, {std::vector<unsigned char>(81, 7), wsb});
+        spend = COutPoint(P->GetHash(), 0);
+        v = drop_val[1] - fee;
+    }
+    CTransactionRef base = MakeTransactionRef(MakeTx({{spend, 0xffffffff, false}}, {{v - fee, OpTrueSpk()}}));
     G = WithWitness(base, {{1}, wsb});
-    Gb = WithWitness(base, {{1}, std::vector<unsigned char>(wrong.begin(), wrong.end())});
+    Gb = WithWitness(base, {{1}, wrongb});
     Gs = base;
     Gx = WithWitness(base, {std::vector<unsigned char>(81, 7), wsb});
     UNIVERSE = {{"G", G->GetWitnessHash().ToUint256()}, {"txid", G->GetHash().ToUint256()}, {"Gb", Gb->GetWitnessHash().ToUint256()}, {"Gx", Gx->GetWitnessHash().ToUint256()}};
-    if (P) { UNIVERSE.push_back({"P", P->GetWitnessHash().ToUint256()}); UNIVERSE.push_back({"Ptxid", P->GetHash().ToUint256()}); }
+    if (P) for (auto& u : {Named{"P", P->GetWitnessHash().ToUint256()}, Named{"Ptxid", P->GetHash().ToUint256()}, Named{"Pb", Pb->GetWitnessHash().ToUint256()}, Named{"Px", Px->GetWitnessHash().ToUint256()}}) UNIVERSE.push_back(u);
 
     auto add = [&](OpT t, int peer, int x, const std::string& l) { OPS.push_back(Op{t, peer, x, l}); };
     add(DEL, PA, 1, "A delivers Gb (witness script mismatch)");
@@ -441,6 +446,9 @@ void BuildUniverse(int mode)
     add(REORG, -1, 0, "1-block reorg (unrelated)");
     if (mode == 2) {
         add(DEL, PH, 4, "H delivers P");
+        add(DEL, PA, 5, "A delivers Pb (parent, witness script mismatch)");
+        add(DEL, PA, 6, "A delivers Ps (parent, witness stripped)");
+        add(DEL, PA, 7, "A delivers Px (parent, 81-byte witness item)");
         add(DEL, PH, 0, "H delivers G");
         add(ORPH, PA, 0, "orphan work for A");
         add(ORPH, PH, 0, "orphan work for H");
@@ -476,11 +484,11 @@ std::vector<std::string> RunE2E(const std::string& hist)
                           &net.AddPeer(spec(ConnectionType::INBOUND, "13.3.3.3", false)), &net.AddPeer(spec(ConnectionType::INBOUND, "14.4.4.4", true))};
     for (auto* p : peers) (void)p->TakeSent();
     auto round = [&] { for (int k = 0; k < 2; k++) for (auto* p : peers) net.Round(*p); };
-    auto tx_of = [&](int x) { return x == 0 ? G : x == 1 ? Gb : x == 2 ? Gs : x == 3 ? Gx : P; };
+    auto tx_of = [&](int x) { return x == 0 ? G : x == 1 ? Gb : x == 2 ? Gs : x == 3 ? Gx : x == 4 ? P : x == 5 ? Pb : x == 6 ? Ps : Px; };
     for (unsigned char c : hist) {
         const EOp& o = EOPS[c];
         g_e2e_events++;
-        if (o.kind == 0) { if (InPool(G)) continue; net.Deliver(*peers[o.peer], pk::MsgTx(*tx_of(o.x), /*with_witness=*/o.x != 2)); }
+        if (o.kind == 0) { if (InPool(G)) continue; net.Deliver(*peers[o.peer], pk::MsgTx(*tx_of(o.x))); }
         else if (o.kind == 1) net.Deliver(*peers[o.peer], pk::MsgInv({o.x == 0 ? CInv(MSG_WTX, G->GetWitnessHash().ToUint256()) : CInv(MSG_TX, G->GetHash().ToUint256())}));
         else { now += o.x; SetMockTime(now); }
         round();
@@ -508,6 +516,7 @@ std::vector<std::string> RunE2E(const std::string& hist)
     if (MODE == 2 && !InPool(G)) {
         if (!InPool(P)) { net.Deliver(F, pk::MsgTx(*P)); round(); }
         for (int k = 0; k < 4; k++) round();
+        if (!InPool(G)) { net.Deliver(F, pk::MsgTx(*G)); round(); }
     }
     if (!InPool(G)) fails.push_back("C64-e2e-not-accepted"); else g_e2e_accept++;
     return fails;
@@ -520,7 +529,7 @@ void ExploreE2E(int depth)
     add(0, 0, 1, "A: tx Gb"); add(0, 0, 2, "A: tx Gs"); add(0, 0, 3, "A: tx Gx"); add(0, 2, 2, "T: tx Gs");
     add(1, 1, 0, "H: inv wtxid(G)"); add(1, 0, 0, "A: inv wtxid(G)"); add(1, 2, 1, "T: inv txid(G)");
     add(2, -1, 2, "clock +2s"); add(2, -1, 60, "clock +60s");
-    if (MODE == 2) { add(0, 1, 4, "H: tx P"); add(0, 1, 0, "H: tx G"); }
+    if (MODE == 2) { add(0, 1, 4, "H: tx P"); add(0, 1, 0, "H: tx G"); add(0, 0, 5, "A: tx Pb"); add(0, 0, 6, "A: tx Ps"); add(0, 0, 7, "A: tx Px"); }
     const int n = (int)EOPS.size();
     std::vector<std::string> level{""};
     for (int d = 0; d <= depth; d++) {
@@ -531,7 +540,7 @@ void ExploreE2E(int depth)
             auto fails = RunE2E(h);
             if (!fails.empty()) {
                 std::string base;
-                for (unsigned char c : h) if (!(EOPS[c].kind == 0 && EOPS[c].x >= 1 && EOPS[c].x <= 3)) base.push_back((char)c);
+                for (unsigned char c : h) if (!(EOPS[c].kind == 0 && ((EOPS[c].x >= 1 && EOPS[c].x <= 3) || EOPS[c].x >= 5))) base.push_back((char)c);
                 std::set<std::string> bf;
                 if (base != h) for (auto& f : RunE2E(base)) bf.insert(f);
                 for (auto& f : fails) {
@@ -550,16 +559,21 @@ bool CheckUniverse()
 {
     ClearPool();
     bool ok = true;
-    auto expect = [&](const char* n, const CTransactionRef& t, bool valid, TxValidationResult r) {
+    // only validity is required of the universe (the reject reason of a copy is what the code under test decides;
+    // the reasons actually seen are counted by the gates)
+    auto expect = [&](const char* n, const CTransactionRef& t, bool valid, TxValidationResult) {
         auto res = N->SubmitTx(t, /*test_accept=*/true);
         bool v = res.m_result_type == MempoolAcceptResult::ResultType::VALID;
-        if (v != valid || (!v && res.m_state.GetResult() != r)) {
+        if (v != valid) {
             printf("HARNESS-ERROR property=C64 mode %d: %s classified unexpectedly: %s\n", MODE, n, res.m_state.ToString().c_str());
             ok = false;
         }
     };
     if (MODE == 2) {
         expect("G without parent", G, false, TxValidationResult::TX_MISSING_INPUTS);
+        expect("Pb", Pb, false, TxValidationResult::TX_NOT_STANDARD);
+        expect("Ps", Ps, false, TxValidationResult::TX_WITNESS_STRIPPED);
+        expect("Px", Px, false, TxValidationResult::TX_WITNESS_MUTATED);
         auto r = N->SubmitTx(P);
         if (r.m_result_type != MempoolAcceptResult::ResultType::VALID) { printf("HARNESS-ERROR property=C64 P rejected: %s\n", r.m_state.ToString().c_str()); return false; }
     }
@@ -584,7 +598,7 @@ int run()
     N = &node;
     SeedRandomStateForTest(SeedRand::ZEROS);
     hb::describer() = describe;
-    const int depth1 = vx::thorough() ? 7 : 6, depth2 = vx::thorough() ? 6 : 5;
+    const int depth1 = vx::thorough() ? 10 : 6, depth2 = vx::thorough() ? 6 : 4;
     const int de = getenv("C64_DE") ? atoi(getenv("C64_DE")) : (vx::thorough() ? 4 : 3);
     const int d1 = getenv("C64_D1") ? atoi(getenv("C64_D1")) : depth1, d2 = getenv("C64_D2") ? atoi(getenv("C64_D2")) : depth2;
 
